@@ -165,7 +165,7 @@ def spec_verdict(ctx, vector):
         stream += " \\o Guard"
     body = mc_body([], [4], D, S, [], [], False, "ASSUME PrintT(ToJson(Dec(%s, %d)))" % (stream, v))
     got = []
-    ctx.tlc("Codec", body, CFG, name="Codec_replay", workers=1, timeout=300, count=False, on_line=lambda s: got.append(json.loads(s)))
+    ctx.tlc("Codec", body, CFG, name="Codec_replay", workers=1, timeout=300, count=False, on_line=lambda s: got.append(json.loads(s) if isinstance(s, str) else s))
     if not got:
         raise vlib.MachineryError("replay: TLC printed no verdict")
     return got[0]
